@@ -489,6 +489,7 @@ impl<M: Manager, W: From<Object<M>>> Pool<M, W> {
         let mut slots = self.inner.slots.lock().unwrap();
         let old_max_size = slots.max_size;
         slots.max_size = max_size;
+        let mut released = Vec::new();
         // shrink pool
         if max_size < old_max_size {
             // Take as many permits out of circulation as the pool shrinks
@@ -507,8 +508,9 @@ impl<M: Manager, W: From<Object<M>>> Pool<M, W> {
             slots.owed += remove;
             // Drop idle objects exceeding the new maximum size
             while slots.size > slots.max_size {
-                if slots.vec.pop_front().is_some() {
+                if let Some(obj) = slots.vec.pop_front() {
                     slots.size -= 1;
+                    released.push(obj);
                 } else {
                     break;
                 }
@@ -529,6 +531,11 @@ impl<M: Manager, W: From<Object<M>>> Pool<M, W> {
             let settled = additional.min(slots.owed);
             slots.owed -= settled;
             self.inner.semaphore.add_permits(additional - settled);
+        }
+        drop(slots);
+        // Detach and drop the released objects without holding the lock
+        for mut obj in released {
+            self.inner.manager.detach(&mut obj.obj);
         }
     }
 
